@@ -59,6 +59,13 @@ Definition evaluate_model (K : nat) (batches : list batch_t) : list NanQ.t :=
 Definition evaluator_client (K : nat) (batches : list batch_t) : list NanQ.t :=
   Gen_models.evaluator_client (vzero K) vmerge (vreduce K) vresult batches.
 
+(* PerDomainMetric.evaluate_example (translated per_domain_example): the statistic of an example with domain id i is,
+   per domain d, the base statistic if d = i and the base zero otherwise, flattened domain-major *)
+Definition pd_row (Dn K : nat) (r : nat * list A) : list A :=
+  concat (per_domain_example Dn (fst r) (snd r) (vzero K)).
+Definition domain_rows (d : nat) (rows : list (nat * list A)) : list (list A) :=
+  map snd (filter (fun r => Nat.eqb d (fst r)) rows).
+
 (* the property's reference: merge the single-example statistics one by one *)
 Definition merge_examples (K : nat) (examples : list (list A)) : list A := mfold vmerge (vzero K) examples.
 Definition real_examples (batches : list batch_t) : list (list A) :=
@@ -75,6 +82,9 @@ Inductive C05_api :=
 Inductive C05_case :=
 | CMean (api : C05_api) (K : nat) (batches : list (option (list bool) * list (list mstat)))
 | CSum (api : C05_api) (K : nat) (batches : list (option (list bool) * list (list NanQ.t)))
+(* PerDomainMetric(base, Dn): the real rows as (domain id, BASE statistic); the model builds the wrapper's statistics *)
+| CMeanPD (Dn K : nat) (rows : list (nat * list mstat))
+| CSumPD (Dn K : nat) (rows : list (nat * list NanQ.t))
 (* the Stat algebra called directly *)
 | CNew (a w : NanQ.t)
 | CMerge (a1 w1 a2 w2 : NanQ.t)
@@ -105,6 +115,8 @@ Definition C05_run (c : C05_case) : list NanQ.t * option (list NanQ.t) :=
   | CSum ApiModel K bs => (evaluate_model sum_alg K bs, None)
   | CSum ApiEvaluator K bs => (evaluator_client sum_alg K bs, None)
   | CSum ApiBatch K bs => let s := first_batch sum_alg K bs in (vresult sum_alg s, Some s)
+  | CMeanPD Dn K rows => (vresult mean_alg (merge_examples mean_alg (Dn * K) (map (pd_row mean_alg Dn K) rows)), None)
+  | CSumPD Dn K rows => (vresult sum_alg (merge_examples sum_alg (Dn * K) (map (pd_row sum_alg Dn K) rows)), None)
   | CNew a w => let s := meanstat_new a w in ([], Some [fst s; snd s])
   | CMerge a1 w1 a2 w2 => let s := meanstat_merge a1 w1 a2 w2 in ([meanstat_result (fst s) (snd s)], Some [fst s; snd s])
   | CReduce accums weights => let s := meanstat_reduce accums weights in ([meanstat_result (fst s) (snd s)], Some [fst s; snd s])
